@@ -201,7 +201,7 @@ class C15(Prop):
             "exception); non-trivial = objects differing in normalize_names or silent and (sched) >= 2 context switches between one "
             "object's construction and the end of its run, (ops) a construction between another object's construction and run; "
             "distinct = SHA-1 of the case")
-    budgets = {"quick": 2000, "thorough": 80000}
+    budgets = {"quick": 2000, "thorough": 40000}
     assumptions = [
         "schedules are explored at statement granularity (PLY API boundaries), as the property states; finer interleavings only by the "
         "free-running stress supplement of the thorough tier",
